@@ -369,6 +369,25 @@ def drain_case(rng, multi, N, pattern, how):
     g = Gen(rng, multi, N + 2)
     for i in range(1, N + 1):
         g.ins(i // 2 if (multi and pattern == 'dups') else i)
+    if pattern in ('median', 'quartiles'):
+        # two-child removals high in the tree: the successor/predecessor is unlinked deep below
+        # the removed node and every node on the way back up must be re-balanced (pop_min/pop_max)
+        j = 0
+        while len(g.s.keys) > max(3, N // 8):
+            n = len(g.s.keys)
+            if pattern == 'median':
+                r = n // 2
+            else:
+                r = (n // 4, (3 * n) // 4, n // 2)[j % 3]
+            if how == 'key':
+                g.remk(g.s.keys[r])
+            else:
+                g.remi(r)
+            j += 1
+            if j % max(1, N // 6) == 0:
+                g.find_all()
+        g.find_all()
+        return g.ops
     keys = lambda: list(g.s.keys)
     def keep(k):
         if pattern == 'pow2':
@@ -571,7 +590,7 @@ class C01(Check):
         cases = []
         for multi in (False, True):
             for N in ([15, 31, 63, 100, 127, 200, 255] if thorough else [15, 31, 60]):
-                for pattern in ('pow2', 'pow2_front', 'every8', 'front', 'back') + (('dups',) if multi else ()):
+                for pattern in ('pow2', 'pow2_front', 'every8', 'front', 'back', 'median', 'quartiles') + (('dups',) if multi else ()):
                     for how in (('key', 'iter', 'ends') if (thorough or N <= 31) else (rng.choice(['key', 'iter', 'ends']),)):
                         cases.append(drain_case(rng, multi, N, pattern, how))
         out.append(Stream('drain', cases))
